@@ -1466,7 +1466,8 @@ fn read_steps(steps: &[u64], deliveries: &[u64]) -> Vec<u64> {
 /// `up_from`: step time of Connect; `end`: (time, was Error(Timeout)) of the terminal event, if any;
 /// `watch_until`: time until which the endpoint stayed in the active state under observation.
 fn check_active_timeout(w: &mut World, who: &str, steps: &[u64], reads: &[u64], up_from: u64, end: Option<(u64, bool)>, watch_until: u64, timeout_ms: u64) {
-    let timeout = timeout_ms * MS;
+    // configured values up to 2^64-1 ("never") are legal: saturate instead of overflowing
+    let timeout = timeout_ms.saturating_mul(MS);
     let mut r = up_from;
     let mut ri = 0;
     let start = steps.partition_point(|&s| s < up_from);
@@ -1494,7 +1495,7 @@ fn check_active_timeout(w: &mut World, who: &str, steps: &[u64], reads: &[u64], 
         if ended_here {
             return;
         }
-        if silence >= timeout + MS {
+        if silence >= timeout.saturating_add(MS) {
             w.c.inc("c10_timeouts_checked");
             w.viol("C10", "timeout-not-reported", format!("{} did not report Error(Timeout) at its step at t={} ms although it last read a frame at t={} ms ({} ms of silence >= active_timeout_ms = {})", who, t / MS, r / MS, silence / MS, timeout_ms));
             return;
@@ -1534,6 +1535,10 @@ pub fn run_timers(seed: u64, params: &Params, out: &mut ScnOut) {
     }
     let mut w = World::new(seed, net, verbose);
     let timeouts = [1000u64, 2000, 3000, 5000, 10_000, 20_000, 60_000, 120_000];
+    // "never": the largest values the field can hold are legal configurations (nothing in
+    // `is_valid` or the documentation excludes them) and mean that no silence is long enough
+    let never = [u64::MAX, u64::MAX - 1, u64::MAX - 19_999, 1u64 << 63, (1u64 << 63) - 1, u64::MAX / 1_000_000, u64::MAX / 1000];
+    let mut ext_rng = Rng::new(seed ^ 0x7e0e);
     let mut scfg_ep = ep_cfg(&mut rng);
     scfg_ep.active_timeout_ms = *rng.pick(&timeouts);
     scfg_ep.keepalive = rng.chance(0.6);
@@ -1544,6 +1549,22 @@ pub fn run_timers(seed: u64, params: &Params, out: &mut ScnOut) {
     ccfg.keepalive_interval_ms = *rng.pick(&[500u64, 2000, 5000, 30_000]);
     ccfg.max_packet_size = ccfg.max_packet_size.min(scfg_ep.max_receive_alloc);
     ccfg.max_receive_alloc = ccfg.max_receive_alloc.max(scfg_ep.max_packet_size);
+    let extreme = !idle_focus && ext_rng.chance(0.08);
+    if extreme {
+        w.c.inc("c10_never_timeout_configurations");
+        match ext_rng.below(3) {
+            0 => scfg_ep.active_timeout_ms = *ext_rng.pick(&never),
+            1 => ccfg.active_timeout_ms = *ext_rng.pick(&never),
+            _ => {
+                scfg_ep.active_timeout_ms = *ext_rng.pick(&never);
+                ccfg.active_timeout_ms = *ext_rng.pick(&never);
+            }
+        }
+        if ext_rng.chance(0.3) {
+            scfg_ep.keepalive_interval_ms = *ext_rng.pick(&never);
+            ccfg.keepalive_interval_ms = *ext_rng.pick(&never);
+        }
+    }
     if idle_focus {
         // keepalive on both sides, or on one side only (its keepalives are answered, which keeps
         // both ends supplied with frames)
@@ -1850,7 +1871,7 @@ pub fn run_timers(seed: u64, params: &Params, out: &mut ScnOut) {
     }
     let connected = w.c.get("cli_connect") > 0;
     let timed_out = w.c.get("c10_timeouts_checked") + w.c.get("c10_handshake_timeouts_checked") + w.c.get("c10_disconnect_attempts_checked") > 0;
-    let idle_long = connected && !blackout && t_end > 3 * ccfg.active_timeout_ms.max(scfg_ep.active_timeout_ms) * MS;
+    let idle_long = connected && !blackout && t_end > ccfg.active_timeout_ms.max(scfg_ep.active_timeout_ms).saturating_mul(3 * MS);
     let nontrivial = timed_out || idle_long;
     let sig = mix(seed, mix(lose_syn as u64 * 16 + lose_synack as u64, ccfg.active_timeout_ms ^ scfg_ep.active_timeout_ms << 20));
     let sample = if seed % 61 == 0 {
